@@ -1,6 +1,10 @@
 package main
 
-import "golang.org/x/tools/go/ssa"
+import (
+	"go/types"
+
+	"golang.org/x/tools/go/ssa"
+)
 
 // hasBoundVar reports whether an SMT term mentions a quantifier-bound variable.
 // Bound variables are named name!q<N>, name!d<N>, name!l<N>, name!pa<N>, name!ax, k!a<N>, k!c<N>;
@@ -68,4 +72,99 @@ func calleeOriginName(f *ssa.Function) string {
 		return o.String()
 	}
 	return f.String()
+}
+
+func isCancelFunc(t types.Type) bool {
+	n, ok := t.(*types.Named)
+	if !ok || n.Obj().Pkg() == nil {
+		return false
+	}
+	return n.Obj().Pkg().Path() == "context" && (n.Obj().Name() == "CancelFunc" || n.Obj().Name() == "CancelCauseFunc")
+}
+
+// fieldHoldsCancelFunc: every store into the struct field (in the loaded module packages) stores the
+// cancel function returned by context.WithCancel / WithTimeout / WithDeadline.
+func (w *World) fieldHoldsCancelFunc(st types.Type, field int) bool {
+	key := typeKey(st) + "#" + itoa(field)
+	if w.cancelFields == nil {
+		w.cancelFields = map[string]bool{}
+	} else if v, ok := w.cancelFields[key]; ok {
+		return v
+	}
+	found := 0
+	ok := true
+	for path, sp := range w.SSAPkgs {
+		if len(path) < len(modulePath) || path[:len(modulePath)] != modulePath {
+			continue
+		}
+		for _, f := range allFunctions(sp) {
+			for _, b := range f.Blocks {
+				for _, in := range b.Instrs {
+					s, isStore := in.(*ssa.Store)
+					if !isStore {
+						continue
+					}
+					fa, isFA := s.Addr.(*ssa.FieldAddr)
+					if !isFA || fa.Field != field {
+						continue
+					}
+					pt, isPtr := fa.X.Type().Underlying().(*types.Pointer)
+					if !isPtr || !types.Identical(pt.Elem(), st) {
+						continue
+					}
+					found++
+					ex, isEx := s.Val.(*ssa.Extract)
+					if !isEx || ex.Index != 1 {
+						ok = false
+						continue
+					}
+					call, isCall := ex.Tuple.(*ssa.Call)
+					if !isCall || call.Call.StaticCallee() == nil {
+						ok = false
+						continue
+					}
+					switch call.Call.StaticCallee().String() {
+					case "context.WithCancel", "context.WithTimeout", "context.WithDeadline", "context.WithCancelCause":
+					default:
+						ok = false
+					}
+				}
+			}
+		}
+	}
+	res := ok && found > 0
+	w.cancelFields[key] = res
+	return res
+}
+
+// isCancelCall: the called function value is a context cancel function.
+func (w *World) isCancelCall(v ssa.Value) bool {
+	if isCancelFunc(v.Type()) {
+		return true
+	}
+	ld, ok := v.(*ssa.UnOp)
+	if !ok {
+		return false
+	}
+	fa, ok := ld.X.(*ssa.FieldAddr)
+	if !ok {
+		return false
+	}
+	pt, ok := fa.X.Type().Underlying().(*types.Pointer)
+	if !ok {
+		return false
+	}
+	if _, isStruct := pt.Elem().Underlying().(*types.Struct); !isStruct {
+		return false
+	}
+	return w.fieldHoldsCancelFunc(pt.Elem(), fa.Field)
+}
+
+// isLogFunc: a method named Log with the logger.Writer signature (level, format, args...).
+func isLogFunc(f *ssa.Function) bool {
+	if f == nil || f.Name() != "Log" || f.Signature.Recv() == nil {
+		return false
+	}
+	sig := f.Signature
+	return sig.Params().Len() == 3 && sig.Variadic() && sig.Results().Len() == 0
 }
